@@ -1,4 +1,6 @@
 import Martian.PostProcess
+import Proofs.PostProcessDests
+import Proofs.PostProcessChecked
 import Gen.Facts
 import Driver.Util
 
@@ -214,6 +216,18 @@ def handle (op : String) (args : List String) : Option String :=
       pure ks.reverse) keys
     pure (boolStr (keysSeparable outs ks) ++ "\t" ++
       ",".intercalate (ks.map fun k => strHex (renderPath (joinKey outs k)) ++ ":" ++ boolStr (legalName k)))
+  | "hyp", [ps, outs, params, value, fs] => do
+    -- the decidable hypotheses of the global theorems on one real input:
+    -- wfParams (dest_injective, content_preserved) and cleanB (content_preserved), number of leaves
+    let ps := pathOf (← hexStr ps)
+    let outs := pathOf (← hexStr outs)
+    let params ← runP pParams params
+    let v ← runP pJ value
+    let fs ← runP pFS fs
+    let kvs := match v with | .obj kvs => kvs | _ => []
+    let ls := leavesRec params kvs outs
+    pure ("wf=" ++ boolStr (wfParams params) ++ " clean=" ++ boolStr (cleanB ps outs fs ls) ++
+      " leaves=" ++ toString ls.length)
   | "wcut", [w, old, new, k] => do
     -- a record write cut after `k` units of progress: `a` = writeAtomicAt (temp file, rename),
     -- `i` = os.WriteFile in place; old = `N` (no record yet) | `S<hex>`; reply: record and `.tmp` sibling
